@@ -473,6 +473,11 @@ def _fam():
     add("nested_quoted_tags", "direct", 100, lambda r: "'" + '{% slot "a" %}{% endslot %}' * r + "'")
     # whole templates / tags through the lexer
     add("t_quoted_tags", "src", 200, lambda r: '{% slot "a" %}{% endslot %}' * r)
+    # quoted tags (each one restarts the stock lexer on the rest of the source) followed by never-closed openers
+    add("t_quoted_then_open_vars", "src", 60, lambda r: "{% slot 'a' %}{% endslot %}" * r + "{{" * (6 * r), "t_restart_lexer")
+    add("t_quoted_then_open_blocks", "src", 60, lambda r: '{% slot "a" %}{% endslot %}' * r + "{% " * (4 * r), "t_restart_lexer")
+    add("t_quoted_then_open_comments", "src", 60, lambda r: "{% slot 'a' %}{% endslot %}" * r + "{#" * (6 * r), "t_restart_lexer")
+    add("t_open_vars_between_quoted", "src", 60, lambda r: "{{ {% slot 'a' %}{% endslot %}" * r, "t_restart_lexer")
     add("t_open_tags", "src", 2000, lambda r: "{% " * r)
     add("t_open_quoted", "src", 1000, lambda r: '{% slot "' * r)
     add("t_many_kwargs", "tag:component", 300, lambda r: 'k="v w" ' * r)
